@@ -162,3 +162,31 @@ Proof. exists alias_base, [alias_src1; alias_src2]. vm_compute. auto. Qed.
 (* the same scenario with the deep copy the code uses now *)
 Theorem deep_copy_witness_unmodified : sources_modified true alias_base [alias_src1; alias_src2] = false.
 Proof. vm_compute. reflexivity. Qed.
+
+(* ---- sub-maps that are ONE object inside a source (YAML anchors / one dict under two keys), F-CFG-ALIASMAP ---- *)
+Definition am_base : dcv := DNode 0 [([101], DLeaf false (AStr [46; 104]))].                                (* {e: ".h"} *)
+Definition am_src1 : dcv :=                                                                             (* {e: {a: &x {k: 1}, b: *x}} *)
+  DNode 0 [([101], DNode 0 [([97], DNode 1 [([107], DLeaf false (AInt 1))]); ([98], DRef 1)])].
+Definition am_src2 : dcv := DNode 0 [([101], DNode 0 [([97], DNode 0 [([107], DLeaf false (AInt 2))])])].   (* {e: {a: {k: 2}}} *)
+
+(* with the plain deepcopy the copy keeps the internal sharing: the later source, which does not mention e.b, changes e.b.k *)
+Theorem aliased_submap_changes_unmentioned_key :
+  untouched [[101]; [98]; [107]] (dag_expand 8 [] am_src2) = true
+  /\ lookup [[101]; [98]; [107]] (fst (hmerge_dag_scenario true false am_base [am_src1])) = Some (Leaf false (AInt 1))
+  /\ lookup [[101]; [98]; [107]] (fst (hmerge_dag_scenario true false am_base [am_src1; am_src2])) = Some (Leaf false (AInt 2)).
+Proof. vm_compute. auto. Qed.
+
+(* with the copy rebuilt key by key the same scenario keeps the unmentioned key, and the sources read as before *)
+Theorem rebuilt_copy_keeps_unmentioned_key :
+  lookup [[101]; [98]; [107]] (fst (hmerge_dag_scenario true true am_base [am_src1; am_src2])) = Some (Leaf false (AInt 1))
+  /\ lookup [[101]; [97]; [107]] (fst (hmerge_dag_scenario true true am_base [am_src1; am_src2])) = Some (Leaf false (AInt 2))
+  /\ snd (hmerge_dag_scenario true true am_base [am_src1; am_src2])
+     = [dag_expand 8 [(1, DNode 1 [([107], DLeaf false (AInt 1))])] am_src1; dag_expand 8 [] am_src2].
+Proof. vm_compute. auto. Qed.
+
+(* on documents without shared sub-maps the heap model with either copy computes Config.du (checked on the witness family
+   here; for all inputs by the correspondence run) *)
+Example heap_model_agrees_on_trees :
+  fst (hmerge_dag_scenario true true am_base [am_src2]) = du_all (dag_expand 8 [] am_base) [dag_expand 8 [] am_src2]
+  /\ fst (hmerge_dag_scenario true false am_base [am_src2]) = du_all (dag_expand 8 [] am_base) [dag_expand 8 [] am_src2].
+Proof. vm_compute. auto. Qed.
